@@ -303,7 +303,7 @@ func (w *world) envelopes(c *common.Ctx, d ocispec.Descriptor) []envCase {
 			p := c.Rand.Intn(len(m))
 			m = append(m[:p], m[p+1:]...)
 		case 2:
-			m = m[:c.Rand.Intn(len(m))]
+			m = m[:1+c.Rand.Intn(len(m)-1)] // never empty: an empty signature is an argument error (C12's business)
 		default:
 			p := c.Rand.Intn(len(m))
 			m[p] = byte(c.Rand.Intn(256))
